@@ -1103,3 +1103,36 @@ add("m03w", ["C03", "C07", "C10"], [(P, "        window = Window(self.jobs_windo
         #
         # this is where we call co_run()
         #""")], rules=["R03.6", "R07.3", "R10.2w"], note="seed C03-R3C")
+
+# ------------------------------------------------------------------ F12: second cancellation
+TIDYFIX = '            interrupted = None\n            while True:\n                try:\n                    await asyncio.wait(pending)\n                    break\n                except asyncio.CancelledError as exc:\n                    interrupted = exc\n            if interrupted is not None:\n                raise interrupted\n'
+add("m11y", ["C11", "C05", "C08", "C09", "C10", "C13"], (P, TIDYFIX, "            await asyncio.wait(pending)\n"),
+    rules=["R11.2", "R05.5", "R08.5", "R09.4", "R10.5", "R13.6"], note="F12 reverted: the wait for the cancelled tasks can be interrupted")
+add("m11z", ["C11"], (P, TIDYFIX, "            await asyncio.shield(asyncio.wait(pending))\n"),
+    rules=["R11.2", "R11.1", "R11.3"], note="a shielded wait goes on, but the scheduler leaves at once")
+add("m11w", ["C11"], (P, """                except asyncio.CancelledError as exc:
+                    interrupted = exc
+""", """                except asyncio.CancelledError as exc:
+                    interrupted = exc
+                    break
+"""), rules=["R11.2"])
+add("b11y", ["C11", "C05", "C13"], (P, TIDYFIX, """            interrupted = None
+            while not all(task.done() for task in pending):
+                try:
+                    await asyncio.wait(pending)
+                except asyncio.CancelledError as exc:
+                    interrupted = exc
+            if interrupted is not None:
+                raise interrupted
+"""), expect='silent')
+add("b11z", ["C11", "C05", "C13"], (P, TIDYFIX, """            interrupted = False
+            while True:
+                try:
+                    await asyncio.wait(pending)
+                except asyncio.CancelledError:
+                    interrupted = True
+                    continue
+                break
+            if interrupted:
+                raise asyncio.CancelledError()
+"""), expect='silent')
